@@ -409,3 +409,135 @@ def make_loss_type(clsname, kernel, has_spread):
 
 for _c, _k, _s in (('SquareLoss', 'Square', False), ('NormalLoss', 'Normal', True), ('PoissonLoss', 'Poisson', False), ('GammaLoss', 'Gamma', True), ('NegBinomLoss', 'NegBinom', True)):
     make_loss_type(_c, _k, _s)
+
+
+# ---------------------------------------------------------------------------------------------
+# the constructor: what is stored, in which order
+
+def make_init(single_column):
+    @contract('C06/BaseLoss.__init__/%s' % ('one observed state' if single_column else 'several observed states'), ['C06', 'C07'], 'pygom.loss.base_loss:BaseLoss.__init__',
+              replay=replay_c06)
+    def init(vc):
+        n, nS, nP = vc.int('n', ge=1), vc.int('nS', ge=1), vc.int('nP', ge=1)
+        p = 1 if single_column else vc.int('p', ge=2)
+        t = vc.array('t', (n,))
+        y = vc.array('y', (n,) if single_column else (n, p))
+        x0 = vc.array('x0', (nS,))
+        t0 = vc.real('t0')
+        theta = vc.array('theta', (nP,))
+        six = vc.fn('state_index_of_named', I, I)
+        log = {}
+
+        class Ode(Model):
+            def py_getattr(self, it, name):
+                if name == 'parameters':
+                    return Builtin('current-parameters', lambda *a: None)
+                if name == 'num_param':
+                    return nP
+                if name == 'num_state':
+                    return nS
+                if name == 'integrate2':
+                    return Builtin('integrate2', lambda it_, a, k: log.setdefault('integrate2', a[0]) and SArr((n + 1, nS), lambda o: z3.RealVal(0)) or SArr((n + 1, nS), lambda o: z3.RealVal(0)))
+                if name == 'get_state_index':
+                    def gsi(it_, a, k):
+                        log['gsi'] = a[0]
+                        return SList(to_num(it_.length(a[0])), lambda q: six(q))
+                    return Builtin('get_state_index', gsi)
+                raise Unsupported("ode attribute %s" % name)
+
+            def py_setattr(self, it, name, value):
+                if name == 'initial_values':
+                    log['iv'] = value
+                    return
+                raise Unsupported("ode attribute write %s" % name)
+        names = SList(p, lambda q: SName(z3.Int('state_name_%s' % 'k')) if False else SName(vc.fn('observed_name', I, I)(q))) if not single_column else [SName(vc.int('observed_name0'))]
+        W = vc.array('W', (n, p) if not single_column else (n,))
+
+        def sws(it, a, k):
+            log.setdefault('sws', []).append((a[1], a[2], a[3], k.get('is_weights', a[4] if len(a) > 4 else None)))
+            return W
+        vc.summary(LOSS + '_setWeight_or_spread', sws)
+        kernel = Builtin('kernel-object', lambda *a: None)
+
+        def slt(it, a, k):
+            self_ = a[0]
+            log['loss_type_args'] = (self_.fields.get('_y'), self_.fields.get('_weight'))
+            self_.fields['_lossObj'] = kernel
+            return kernel
+        vc.summary(LOSS + '_setLossType', slt)
+        cls = vc.cls('pygom.loss.base_loss:BaseLoss')
+        sw = vc.array('state_weight', (n,) if single_column else (p,))
+        out = vc.call(cls, theta, Ode(), x0, t0, t, y, names, sw)
+        vc.ensure('the constructor returns', out.returned)
+        if not out.returned:
+            return
+        obj = out.value
+        f = obj.fields
+        q = z3.Int('q_k')
+        vc.ensure('the state indices are looked up for the observed names, in the order given', log.get('gsi') is f.get('_stateName') and (f['_stateName'] is names or f['_stateName'] == names))
+        si = f.get('_stateIndex')
+        vc.ensure('_stateIndex[j] = index of the j-th named state', allof(isinstance(si, SList), z3.And(to_num(si.length) == p, z3.ForAll([q], z3.Implies(z3.And(q >= 0, q < p), si.element(q) == six(q)))) if isinstance(si, SList) else False))
+        ot, tt = f.get('_observeT'), f.get('_t')
+        vc.ensure('the observation times are kept as given (a copy), in order', allof(isinstance(ot, SArr) and ot is not t, z3.And(to_num(ot.shape[0]) == n, z3.ForAll([q], z3.Implies(z3.And(q >= 0, q < n), ot.get((q,)) == t.get((q,))))) if isinstance(ot, SArr) else False))
+        vc.ensure('_t is the initial time followed by the observation times', allof(isinstance(tt, SArr), z3.And(to_num(tt.shape[0]) == n + 1, tt.get((z3.IntVal(0),)) == t0,
+                                                                                       z3.ForAll([q], z3.Implies(z3.And(q >= 0, q < n), tt.get((q + 1,)) == t.get((q,))))) if isinstance(tt, SArr) else False))
+        yy = f.get('_y')
+        if single_column:
+            vc.ensure('the data vector is stored element for element', allof(isinstance(yy, SArr) and yy.rank == 1, z3.ForAll([q], z3.Implies(z3.And(q >= 0, q < n), yy.get((q,)) == y.get((q,)))) if isinstance(yy, SArr) and yy.rank == 1 else False))
+        else:
+            vc.ensure('the data matrix is stored as given (row i = observation i, column j = named state j)', yy is y)
+        vc.ensure('weights are built from state_weight for n observations of p states', log.get('sws') is not None and len(log['sws']) == 1 and
+                  (log['sws'][0][0] is n or z3.is_true(z3.simplify(to_num(log['sws'][0][0]) == n))) and (log['sws'][0][1] == p if isinstance(p, int) else z3.is_true(z3.simplify(to_num(log['sws'][0][1]) == p)))
+                  and log['sws'][0][2] is sw and log['sws'][0][3] is True and f.get('_weight') is W)
+        vc.ensure('the kernel is built from the stored data and weights', log.get('loss_type_args') is not None and log['loss_type_args'][0] is yy and log['loss_type_args'][1] is W and f.get('_lossObj') is kernel)
+        xx = f.get('_x0')
+        vc.ensure('the initial state is stored as a copy', allof(isinstance(xx, SArr) and xx is not x0, z3.ForAll([q], z3.Implies(z3.And(q >= 0, q < nS), xx.get((q,)) == x0.get((q,)))) if isinstance(xx, SArr) else False))
+        vc.ensure('initial time, parameter and state counts', (f.get('_t0') is t0) and f.get('_num_param') is nP and f.get('_num_state') is nS)
+        th = f.get('_theta')
+        vc.ensure('theta is stored positionally', allof(isinstance(th, SArr), z3.ForAll([q], z3.Implies(z3.And(q >= 0, q < nP), th.get((q,)) == theta.get((q,)))) if isinstance(th, SArr) else False))
+        vc.canary('canary: reachable', z3.BoolVal(False))
+    init.__doc__ = "BaseLoss.__init__ (%s): stores the observed-state indices in the named order, the times, data, weights, x0 and theta" % ('one observed state' if single_column else 'several observed states')
+    return init
+
+
+make_init(True)
+make_init(False)
+
+
+@contract('C06/_unrollParam/target_param', ['C06', 'C07'], LOSS + '_unrollParam', replay=replay_c06)
+def unroll_param(vc):
+    """target_param given: value i replaces the entry stored under target_param[i] (order supplied); other stored entries are kept"""
+    L = vc.int('L', ge=1)
+    vals = vc.array('values', (L,))
+    pn = vc.fn('target_param_name', I, I)
+    a, b = z3.Int('tp_a'), z3.Int('tp_b')
+    vc.require('target parameter names are distinct', z3.ForAll([a, b], z3.Implies(z3.And(a >= 0, a < L, b >= 0, b < L, a != b), pn(a) != pn(b))))
+    inv_, ment = vc.fn('tp_index', I, I), vc.fn('tp_mentioned', I, z3.BoolSort())
+    n_ = z3.Int('tp_n')
+    vc.assume(z3.ForAll([a], z3.Implies(z3.And(a >= 0, a < L), z3.And(ment(pn(a)), inv_(pn(a)) == a)), patterns=[pn(a)]))
+    vc.assume(z3.ForAll([n_], z3.Implies(ment(n_), z3.And(inv_(n_) >= 0, inv_(n_) < L, pn(inv_(n_)) == n_)), patterns=[inv_(n_)]))
+    D0 = SDict(vc.it, 'theta')
+    s0 = D0.snapshot()
+    cls = vc.cls('pygom.loss.base_loss:BaseLoss')
+    obj = ObjVal(cls, {'_targetParam': SList(L, lambda k: SName(pn(k))), '_theta': D0})
+    F = LOSS + '_unrollParam'
+
+    def inv(view, i):
+        d = obj.fields['_theta']
+        kd = z3.Int('up_k')
+        m_ = lambda n2: z3.And(ment(n2), inv_(n2) < i)
+        return [('the first i target parameters hold the new values, every other stored entry is as before',
+                 z3.And(z3.ForAll([n_], d.dom(n_, 0) == z3.Or(z3.Select(s0['Dom'], n_, 0), m_(n_))),
+                        z3.ForAll([n_], d.val(n_, 0) == z3.If(m_(n_), vals.get((inv_(n_),)), z3.Select(s0['Val'], n_, 0))),
+                        z3.ForAll([n_, kd], z3.Implies(kd != 0, z3.And(d.dom(n_, kd) == z3.Select(s0['Dom'], n_, kd), d.val(n_, kd) == z3.Select(s0['Val'], n_, kd))))))]
+
+    def inplace(it, view):
+        obj.fields['_theta'].havoc_inplace(it, 'theta_cur')
+    vc.loop(F, 1, inv, inplace=(inplace,))      # loop 0 is the dict-argument form, loop 1 the positional form
+    out = vc.call(vc.func(F), obj, vals)
+    vc.ensure('returns normally', out.returned)
+    d = obj.fields['_theta']
+    vc.ensure('the holder is updated in place', d is D0)
+    vc.ensure('theta[i] is stored under target_param[i] for every i', z3.ForAll([a], z3.Implies(z3.And(a >= 0, a < L), z3.And(d.dom(pn(a), 0), d.val(pn(a), 0) == vals.get((a,))))))
+    vc.ensure('entries of parameters that are not targeted are kept', z3.ForAll([n_], z3.Implies(z3.Not(ment(n_)), z3.And(d.dom(n_, 0) == z3.Select(s0['Dom'], n_, 0), d.val(n_, 0) == z3.Select(s0['Val'], n_, 0)))))
+    vc.canary('canary: reachable', z3.BoolVal(False))
